@@ -121,9 +121,15 @@ def run_transform_case(sname, cfg, pname, seed, tier, res=None, only=None):
         for i in range(npool):
             try:
                 y, ld = call(getattr(m, direction), src[i : i + 1], None if CT is None else CT[i : i + 1])
-                lst.append((y[0].clone(), ld[0].clone()))
             except Exception as e:
                 lst.append(None)
+                continue
+            if y.dim() < 1 or y.shape[0] != 1 or tuple(ld.shape) != (1,):
+                # the library returned, but not one item per batch row: that is this property's business, not a skip
+                vio.append(_v(sname, sig, direction, "row depends on the rest of the batch", cfg, pname, seed, (i,), "%s on a batch of one row returns outputs of shape %s and logabsdet of shape %s" % (direction, tuple(y.shape), tuple(ld.shape))))
+                lst.append(None)
+                continue
+            lst.append((y[0].clone(), ld[0].clone()))
         ref[direction] = lst
         ref[direction + "_src"] = src
     # one object serves the whole enumeration (as a user's model would): a replay re-runs the same sequence of calls and keeps the
